@@ -55,6 +55,7 @@ open(os.path.join(V, 'seeded', 'INDEX.md'), 'w').write(
     "# Seeded changes\n\nEach directory holds `patch.diff` (applies to /repo HEAD with `git -C /repo apply`), `demo.py` (passes on the clean tree, fails "
     "with the change; run with PYTHONPATH pointing at the tree under test), `notes.md` (the seeder's description) and `meta.json`.\n\n"
     + tab + "\n\nDropped candidates (not kept because a verification step failed): " + (json.dumps(dropped) if dropped else "none") + "\n")
+R7 = ""
 p = os.path.join(V, 'DESIGN.md'); s = open(p).read()
 i = s.index("## 8. Seeded changes and which checks catch them"); j = s.index("## 9. Departures")
 s = s[:i] + "## 8. Seeded changes and which checks catch them\n\n" + \
@@ -97,7 +98,7 @@ s = s[:i] + "## 8. Seeded changes and which checks catch them\n\n" + \
     "`minimum` / `maximum`, and missing obligations (dictionary orders against sorted pytree leaves, field converters through the constructors, " \
     "an empty parameter batch, constructor counters, stop_gradient on the hyper-network input or on a differentiated variable, donated buffers, " \
     "non-array data in dynamic fields). Nine were not decided at first; the single-row twins, the replaced-weights obligations and the `resize` " \
-    "model (end of section 3) decide four of them, five remain (dtypes, a change outside C06's quantifier; section 6).@@R7@@\n\n" + \
+    "model (end of section 3) decide four of them, five remain (dtypes, a change outside C06's quantifier; section 6)." + R7 + "\n\n" + \
     tab + "\n\nOne candidate was dropped: `C16_m3` (`i <= start_iter` -> `i < start_iter` in `rar_step_false`). It was produced against " \
     "the tree before repair fc78006; on the repaired tree the period counter equals `update_every - 1` at `start_iter`, a non-step at " \
     "`i == start_iter` can then only be caused by a full store, and the change no longer alters any observable count (its demo passes " \
